@@ -80,6 +80,8 @@ func (t *TypeT) reflectType() reflect.Type {
 			ft = reflect.TypeOf([2]string{})
 		case "spstruct":
 			ft = reflect.SliceOf(reflect.PointerTo(f.Sub.reflectType()))
+		case "psstruct":
+			ft = reflect.PointerTo(reflect.SliceOf(f.Sub.reflectType()))
 		case "imap":
 			ft = reflect.TypeOf(map[int]string{})
 		case "sany":
@@ -306,7 +308,7 @@ func secret(r *hx.Rand, n int) string {
 		s += "z"
 	}
 	s = s[:n]
-	if n >= 7 && r.Chance(1, 8) {
+	if n >= 6 && strings.Contains(s[:n-1], "_") && r.Chance(1, 4) {
 		// a character that quoting or JSON encoding escapes (the prefix with the counter stays intact)
 		b := []byte(s)
 		b[n-1] = "\"\\\t'<"[r.Intn(5)]
@@ -326,6 +328,7 @@ var tagsFor = map[string][]string{
 	"ssstring": {"", "dive,dive,min=2", "min=1,dive,max=1,dive,max=3", "dive,min=1"},
 	"astring":  {"", "dive,min=3", "dive,required", "required"},
 	"spstruct": {"", "max=1", "dive", "required,dive", "min=1", "dive,required"},
+	"psstruct": {"", "omitempty,dive", "required,dive", "omitempty,max=1,dive"},
 	"imap":     {"", "max=1", "min=1", "required", "max=1,dive,min=9"},
 	"sany":     {"", "max=1", "min=1", "required", "omitempty,max=2"},
 	"many":     {"", "max=1", "min=1", "required"},
@@ -334,7 +337,7 @@ var tagsFor = map[string][]string{
 	"map":      {"", "min=1", "required"},
 }
 
-var kinds = []string{"string", "string", "string", "int", "int", "bool", "pstring", "struct", "struct", "pstruct", "sstring", "sstring", "ssstring", "sint", "sstruct", "sstruct", "map", "sany", "many", "astring", "spstruct", "imap"}
+var kinds = []string{"string", "string", "string", "int", "int", "bool", "pstring", "struct", "struct", "pstruct", "sstring", "sstring", "ssstring", "sint", "sstruct", "sstruct", "map", "sany", "many", "astring", "spstruct", "imap", "psstruct"}
 
 func genType(r *hx.Rand, depth int) *TypeT {
 	return genTypeIn(r, depth, map[string]bool{}, depth < 2 && r.Chance(1, 3))
@@ -367,7 +370,7 @@ func genTypeIn(r *hx.Rand, depth int, used map[string]bool, embeds bool) *TypeT 
 			break
 		}
 		k := hx.Pick(r, kinds)
-		if depth >= 3 && (k == "struct" || k == "pstruct" || k == "sstruct" || k == "spstruct") {
+		if depth >= 3 && (k == "struct" || k == "pstruct" || k == "sstruct" || k == "spstruct" || k == "psstruct") {
 			k = "string"
 		}
 		f := FieldT{JSON: name, Kind: k, Tag: hx.Pick(r, tagsFor[k])}
@@ -402,7 +405,7 @@ func genTypeIn(r *hx.Rand, depth int, used map[string]bool, embeds bool) *TypeT 
 					f.Sub.Fields = append(f.Sub.Fields, FieldT{JSON: own.JSON, Kind: "string", Tag: hx.Pick(r, tagsFor["string"])})
 				}
 			}
-		case k == "struct" || k == "pstruct" || k == "sstruct" || k == "spstruct":
+		case k == "struct" || k == "pstruct" || k == "sstruct" || k == "spstruct" || k == "psstruct":
 			used[key(name)] = true
 			f.Sub = genType(r, depth+1)
 		default:
@@ -452,6 +455,9 @@ func genValue(r *hx.Rand, f FieldT, depth int) any {
 	}
 	switch f.Kind {
 	case "string", "pstring":
+		if strings.Contains(f.Tag, "oneof") && r.Chance(1, 3) {
+			return secret(r, r.Range(6, 9)) // a value the oneof message could quote
+		}
 		switch r.Intn(8) {
 		case 0:
 			return hx.Pick(r, []string{"red", "green", "blue"})
@@ -500,7 +506,7 @@ func genValue(r *hx.Rand, f FieldT, depth int) any {
 			out[i] = hx.Pick(r, []int{0, 3, 5, 9, 10, 77})
 		}
 		return out
-	case "sstruct", "spstruct":
+	case "sstruct", "spstruct", "psstruct":
 		n := r.Range(0, 3)
 		out := make([]any, n)
 		for i := range out {
@@ -605,7 +611,7 @@ func genObject(r *hx.Rand, t *TypeT, depth int) objT {
 		}
 		o = append(o, kv{key, genValue(r, f, depth)})
 		// siblings that sort between the parent and its children
-		if (f.Kind == "struct" || f.Kind == "pstruct" || f.Kind == "sstruct" || f.Kind == "sstring" || f.Kind == "map" || f.Kind == "sany" || f.Kind == "many" || f.Kind == "spstruct" || f.Kind == "astring" || f.Kind == "imap") && r.Chance(1, 2) {
+		if (f.Kind == "struct" || f.Kind == "pstruct" || f.Kind == "sstruct" || f.Kind == "sstring" || f.Kind == "map" || f.Kind == "sany" || f.Kind == "many" || f.Kind == "spstruct" || f.Kind == "astring" || f.Kind == "imap" || f.Kind == "psstruct") && r.Chance(1, 2) {
 			for n := r.Range(1, 2); n > 0; n-- {
 				o = append(o, kv{f.JSON + hx.Pick(r, lowSuffix), genJunk(r, depth+2)})
 			}
@@ -748,8 +754,9 @@ func genCase(r *hx.Rand, tier string) caseT {
 		pm, err := validation.ComputePresence([]byte(c.Body))
 		if err == nil {
 			ps := sortedKeys(pm)
+			dense := r.Chance(1, 3) // sometimes most paths are covered, those deep below containers too
 			for _, p := range ps {
-				if r.Chance(1, 3) {
+				if r.Chance(1, 3) || (dense && r.Chance(1, 2)) {
 					c.Redact = append(c.Redact, p)
 				}
 			}
@@ -1380,15 +1387,64 @@ func observe(c *caseT, rt reflect.Type, secrets []string) (o obsT) {
 	return o
 }
 
+// resolveDeep is resolveOwn continued through interface values and string-keyed maps (what
+// encoding/json puts into any, []any and map[string]any): a secret may sit below such a slot and is
+// printed with the container's value. Longest-first split for map keys that contain dots.
+func resolveDeep(root reflect.Value, path string) (reflect.Value, bool) {
+	if v, _, _, ok := resolveOwn(root, path); ok {
+		return v, true
+	}
+	parts := strings.Split(path, ".")
+	for i := len(parts) - 1; i >= 1; i-- {
+		head, _, _, ok := resolveOwn(root, strings.Join(parts[:i], "."))
+		if !ok {
+			continue
+		}
+		cur := head
+		rest := parts[i:]
+		for len(rest) > 0 {
+			for (cur.Kind() == reflect.Pointer || cur.Kind() == reflect.Interface) && !cur.IsNil() {
+				cur = cur.Elem()
+			}
+			switch cur.Kind() {
+			case reflect.Slice, reflect.Array:
+				idx, err := strconv.Atoi(rest[0])
+				if err != nil || idx < 0 || idx >= cur.Len() {
+					return reflect.Value{}, false
+				}
+				cur, rest = cur.Index(idx), rest[1:]
+			case reflect.Map:
+				if cur.Type().Key().Kind() != reflect.String {
+					return reflect.Value{}, false
+				}
+				found := false
+				for n := len(rest); n >= 1 && !found; n-- {
+					mv := cur.MapIndex(reflect.ValueOf(strings.Join(rest[:n], ".")).Convert(cur.Type().Key()))
+					if mv.IsValid() {
+						cur, rest, found = mv, rest[n:], true
+					}
+				}
+				if !found {
+					return reflect.Value{}, false
+				}
+			default:
+				return reflect.Value{}, false
+			}
+		}
+		return cur, true
+	}
+	return reflect.Value{}, false
+}
+
 // secretsOf returns the distinctive values (length >= 5) found at the redacted paths of the body.
 func secretsOf(root reflect.Value, redacted []string) []string {
 	var out []string
 	for _, p := range redacted {
-		val, _, _, ok := resolveOwn(root, p)
+		val, ok := resolveDeep(root, p)
 		if !ok {
 			continue
 		}
-		for val.Kind() == reflect.Pointer && !val.IsNil() {
+		for (val.Kind() == reflect.Pointer || val.Kind() == reflect.Interface) && !val.IsNil() {
 			val = val.Elem()
 		}
 		switch val.Kind() {
@@ -1778,7 +1834,10 @@ func fixedCases() []caseT {
 		{Body: `{"F0":"ab","F1":"x"}`, T: &TypeT{Fields: []FieldT{{JSON: "F0", Kind: "string", Tag: "min=3", TagForm: 2}, {JSON: "F1", Kind: "string", Tag: "min=3", TagForm: 3}}}, Mode: 1},                                                  // K05j (full)
 		{Body: `{"name":"ab","F1":"x","-":"q"}`, T: &TypeT{Fields: []FieldT{{JSON: "name", Kind: "string", Tag: "min=2"}, {JSON: "F1", Kind: "string", Tag: "required", TagForm: 4}, {JSON: "-", Kind: "string", Tag: "min=3", TagForm: 5}}}}, // K05k
 		{Body: `{"token":"q5_short","note":"toolong","v":{"name":"ab"}}`, Named: "FullG", Mode: 1, Redact: []string{"token"}},                                                                                                                 // generic type name with dots
-		{Body: `{"1":"abc","2":{"3":"x"}}`, T: &TypeT{Fields: []FieldT{{JSON: "1", Kind: "string", Tag: "email"}, {JSON: "2", Kind: "struct", Sub: &TypeT{Fields: []FieldT{{JSON: "3", Kind: "string", Tag: "min=2"}}}}}}},                    // K05d
+		{Body: `{"id":["q3_wvxk",{"n":3,"user":"q4_wvxkjq"},{"n":4,"token":"q5_wvxkjq"}]}`, T: &TypeT{Fields: []FieldT{{JSON: "id", Kind: "sany", Tag: "omitempty,max=2"}}}, Mode: 1, Redact: []string{"id.1.user", "id.2.token"}},            // secrets below interface slots of a failing container
+		{Body: `{"meta":{"auth":{"token":"q6_wvxkjq"},"a":"x"}}`, T: &TypeT{Fields: []FieldT{{JSON: "meta", Kind: "many", Tag: "max=1"}}}, Mode: 1, Redact: []string{"meta.auth.token"}},
+		{Body: `{"id":"x","kind":"q7_wv\t","name":"n","token":"q8_wvxkjq\""}`, Named: "FullE", Mode: 1, Redact: []string{"kind", "token"}},                                                                                 // a redacted value that quoting escapes
+		{Body: `{"1":"abc","2":{"3":"x"}}`, T: &TypeT{Fields: []FieldT{{JSON: "1", Kind: "string", Tag: "email"}, {JSON: "2", Kind: "struct", Sub: &TypeT{Fields: []FieldT{{JSON: "3", Kind: "string", Tag: "min=2"}}}}}}}, // K05d
 	}
 }
 
